@@ -16,6 +16,9 @@ func init() {
 		if id == "C02" {
 			sc = append(sc, scenarioPlan{Name: "lb_known", Quick: 16, Thorough: 16})
 		}
+		if id == "C02" || id == "C03" {
+			sc = append(sc, scenarioPlan{Name: "lb_conc", Quick: 30000, Thorough: 1500000})
+		}
 		addPlan(&propertyPlan{ID: id,
 			Scenarios: sc,
 			Rule: lbRule, Assume: lbAssume, Real: lbReal, Stub: lbStub})
@@ -36,8 +39,8 @@ func init() {
 
 	addPlan(&propertyPlan{ID: "C08",
 		Scenarios: []scenarioPlan{{Name: "c08_flush", Quick: 30000, Thorough: 2000000}},
-		Rule: "one run = one seeded execution of a writer issuing 1-4 Write/Flush calls (1 byte .. 10x the socket buffer, with no/relative/absolute write timeout) on a connection built one of three ways over a socket pair with 4-16 KB buffers, a peer that drains promptly/slowly/not at all/closes, an optional second concurrent Flush caller and an optional local closer, under kernel short writes, EAGAIN and epoll faults; non-trivial = more than half a socket buffer was submitted; distinct = distinct step-trace hash",
-		Assume: []string{"one writer per connection; the second goroutine only calls Flush", "after ErrWriteTimeout the writer stops submitting (netpoll documents that the unsent tail is left to the poller)", "AF_UNIX stream sockets on the real kernel"},
+		Rule: "one run = one seeded execution of a writer issuing 1-4 Write/Flush calls (1 byte .. 10x the socket buffer, with no/relative/absolute write timeout) on a connection built one of three ways over a socket pair with 4-16 KB buffers, a peer that drains promptly/slowly/not at all/closes, an optional second concurrent Flush caller and an optional local closer, under kernel short writes, EAGAIN and epoll faults; when a call ended in ErrWriteTimeout and everything has come to rest (peer drained, poller idle) a further Flush of 2 KB-100 KB is issued and judged like any other; non-trivial = more than half a socket buffer was submitted; distinct = distinct step-trace hash",
+		Assume: []string{"one writer per connection; the second goroutine only calls Flush", "after ErrWriteTimeout the writer submits again only once the poller is idle (an immediate retry shares the unsent tail with a poller that may still be sending it: duplicated bytes and a poller crash in the unchanged code, outside the given properties - DESIGN.md 6.5)", "AF_UNIX stream sockets on the real kernel"},
 		Real:   commonReal, Stub: commonStub})
 	addPlan(&propertyPlan{ID: "C04",
 		Scenarios: []scenarioPlan{{Name: "c04_stream", Quick: 20000, Thorough: 1000000}, {Name: "c08_flush", Quick: 5000, Thorough: 200000}, {Name: "c06_handler", Quick: 5000, Thorough: 200000}},
@@ -47,12 +50,12 @@ func init() {
 
 	addPlan(&propertyPlan{ID: "C13",
 		Scenarios: []scenarioPlan{{Name: "c13_server", Quick: 15000, Thorough: 600000}, {Name: "c05_teardown", Quick: 5000, Thorough: 200000}},
-		Rule: "one run = a real event loop serving a real AF_UNIX listener (netpoll's own listener type, or a net.Listener through ConvertListener) with 1-2 pollers; 1-6 raw clients that connect after a seeded delay, send 0-200 bytes and close at once / after sending / after a pause / when told; handlers that return, sleep (virtual) or wait on a gate; an optional EMFILE stretch on accept; Shutdown with a seeded virtual deadline at a seeded time; non-trivial = at least one connection was accepted; distinct = distinct step-trace hash",
+		Rule: "one run = a real event loop serving a real AF_UNIX listener (netpoll's own listener type, or a net.Listener through ConvertListener) with 1-2 pollers; 1-6 raw clients that connect after a seeded delay, send 0-200 bytes and close at once / after sending / after a pause / when told; handlers that return, sleep (virtual) or wait on a gate; an optional EMFILE stretch on accept; Shutdown with a seeded virtual deadline at a seeded time; 'Shutdown returned nil' is judged twice: at the first quiescence after it returned, with the clients still connected (nothing tracked, every accepted connection closed), and again after the clients were released; non-trivial = at least one connection was accepted; distinct = distinct step-trace hash",
 		Assume: []string{"handlers consume their input", "AF_UNIX stream sockets on the real kernel", "descriptor exhaustion is injected at accept/socket/epoll_create only"},
 		Real:   commonReal, Stub: commonStub})
 
 	addPlan(&propertyPlan{ID: "C15",
-		Scenarios: []scenarioPlan{{Name: "c15_errors", Quick: 15000, Thorough: 600000}, {Name: "c13_server", Quick: 6000, Thorough: 250000}, {Name: "c05_teardown", Quick: 6000, Thorough: 250000}, {Name: "c08_flush", Quick: 3000, Thorough: 100000}, {Name: "c07_reader", Quick: 3000, Thorough: 100000}, {Name: "c18_pool", Quick: 3000, Thorough: 100000}},
+		Scenarios: []scenarioPlan{{Name: "c15_errors", Quick: 15000, Thorough: 600000}, {Name: "c13_server", Quick: 6000, Thorough: 250000}, {Name: "c05_teardown", Quick: 6000, Thorough: 250000}, {Name: "c08_flush", Quick: 3000, Thorough: 100000}, {Name: "c07_reader", Quick: 3000, Thorough: 100000}, {Name: "c14_dial", Quick: 6000, Thorough: 250000}, {Name: "c18_pool", Quick: 3000, Thorough: 100000}},
 		Rule: "descriptor ledger armed in every scenario: a descriptor becomes netpoll-owned when a netpoll system call creates it or when it is handed over (NewFDConnection, the listener duplicate) and returns to the harness at Detach; a close of a number that is not open or not owned, a harness-owned trip-wire (opened on the number netpoll just closed) found closed or replaced, or a netpoll-owned descriptor still open after every connection, listener and poller was closed is a violation; the dedicated scenario c15_errors strings together 1-5 error-path life cycles (refused dial, socket option failing after socket(), registration failing, poller creation failing half way, connections closed by either side, dialled and accepted connections); non-trivial = a connection or poller was created; distinct = distinct step-trace hash",
 		Assume: []string{"descriptors opened by the standard library on netpoll's behalf (the os.File of a converted net.Listener) are covered by the trip-wire and by an fstat census, not by the call ledger", "AF_UNIX sockets only"},
 		Real:   commonReal, Stub: commonStub})
@@ -64,30 +67,30 @@ func init() {
 
 	addPlan(&propertyPlan{ID: "C14",
 		Scenarios: []scenarioPlan{{Name: "c14_dial", Quick: 20000, Thorough: 1000000}, {Name: "c15_errors", Quick: 4000, Thorough: 100000}},
-		Rule: "one run = 1-3 targets (TCP v4/v6 literal over the virtual TCP stub: accept after a virtual delay of 0..100ms, refuse, drop, accept-then-reset; unix: listening or absent) and 1-6 concurrent DialConnection calls with timeout 0/1/5/50ms; the connect completing and the timeout firing are both scheduler events; a returned connection must complete an echo round trip; non-trivial = every run; distinct = distinct step-trace hash",
+		Rule: "one run = 1-3 targets (TCP v4/v6 literal over the virtual TCP stub: accept after a virtual delay of 0..100ms, refuse, drop, accept-then-reset; unix: listening or absent) and 1-6 concurrent DialConnection calls with timeout 0/1/5/50ms; the connect completing and the timeout firing are both scheduler events; a returned connection must complete an echo round trip; after every dial has returned and every returned connection was closed no socket descriptor opened by a dial and no poller slot may be left; non-trivial = every run; distinct = distinct step-trace hash",
 		Assume: []string{"the TCP handshake is a stub (vsys virtual TCP over AF_UNIX: EINPROGRESS, completion/refusal/silence after a virtual delay, SO_ERROR, deferred epoll registration); everything after the connect is the real kernel", "IP literals only (no DNS)", "an untimed dial into a black hole is not generated"},
 		Real:   commonReal, Stub: append(append([]string{}, commonStub...), "TCP three-way handshake (vsys virtual TCP)")})
 
 	addPlan(&propertyPlan{ID: "C17",
 		Scenarios: []scenarioPlan{{Name: "c17_shardqueue", Quick: 30000, Thorough: 1500000}},
-		Rule: "one run = a ShardQueue with 1-4 shards over a real connection whose peer drains; 1-4 adder tasks issue 1-4 bursts of 1-3 getters each (unique 8-byte records, some getters return a nil buffer), an optional Close at a seeded time and an optional Add after Close returned; the worker runs as a simulator task through the RunTask seam; non-trivial = more than one getter; distinct = distinct step-trace hash",
+		Rule: "one run = a ShardQueue with 1-4 shards over a real connection whose peer drains; 1-4 adder tasks issue 1-4 bursts of 1-3 getters each, one burst in eight of 33-130 getters (unique 8-byte records, some getters return a nil buffer, a third hand over an already flushed buffer), an optional Close at a seeded time and an optional Add after Close returned; the worker runs as a simulator task through the RunTask seam; non-trivial = more than one getter; distinct = distinct step-trace hash",
 		Assume: []string{"the connection stays alive (the peer drains)", "getters are cheap and do not block"},
 		Real:   append(append([]string{}, commonReal...), "mux/shard_queue.go"), Stub: commonStub})
 
 	addPlan(&propertyPlan{ID: "C12",
 		Scenarios: []scenarioPlan{{Name: "c12_closed", Quick: 40000, Thorough: 1500000}},
-		Rule: "the product {36 Connection/Reader/Writer methods} x {closed by user, by peer, by peer then user, detached} x {5 bytes of input buffered or none} x {unflushed output pending or none} x {accepted connection with OnConnect and a close callback, or a bare FD connection} x {called once or twice} x {a new connection has reused the poller slot or not} = 9216 cases is sampled by the workload tape, each case reached inside the simulator under seeded schedules and the method then called from a fresh task; non-trivial = every case; distinct = distinct step-trace hash; distinct_abstract_states counts distinct cases of the product",
+		Rule: "the product {36 Connection/Reader/Writer methods} x {closed by user, by peer, by peer then user, detached} x {5 bytes of input buffered or none} x {unflushed output pending or none} x {accepted connection with OnConnect and a close callback, or a bare FD connection} x {called once or twice} x {a new connection has reused the poller slot or not} = 4608 cases is sampled by the workload tape, each case reached inside the simulator under seeded schedules and the method then called from a fresh task; non-trivial = every case; distinct = distinct step-trace hash; distinct_abstract_states counts distinct cases of the product",
 		Assume: []string{"zero-copy results obtained before the close are not used afterwards", "buffered input of a peer-closed connection stays readable only while the user has not closed it and it has no OnConnect/OnRequest (netpoll then tears it down itself)"},
 		Real:   commonReal, Stub: commonStub})
 
 	addPlan(&propertyPlan{ID: "C10",
-		Scenarios: []scenarioPlan{{Name: "c10_isolation", Quick: 20000, Thorough: 1000000}, {Name: "c12_closed", Quick: 10000, Thorough: 300000}},
-		Rule: "one run = 2-4 generations of connections over one poller and a small descriptor pool: each generation opens a socket pair (lowest free descriptor numbers and the freed poller slot are reused), its peer sends a private position-keyed stream, a reader consumes it, and it is closed by the user, by the peer, or left open; a stale caller keeps invoking Release/Close/Next/Write/Flush/Len/Skip on connections that are already closed, at seeded steps, including between the fetch and the dispatch of a poller batch; after every generation the slot ownership is audited in-package; non-trivial = every run; distinct = distinct step-trace hash",
+		Scenarios: []scenarioPlan{{Name: "c10_isolation", Quick: 20000, Thorough: 1000000}, {Name: "c10_batch", Quick: 40000, Thorough: 2000000}, {Name: "c12_closed", Quick: 10000, Thorough: 300000}},
+		Rule: "one run = 2-4 generations of connections over one poller and a small descriptor pool: each generation opens a socket pair (lowest free descriptor numbers and the freed poller slot are reused), its peer sends a private position-keyed stream, a reader consumes it, and it is closed by the user, by the peer, by both, or left open; the next generation is opened either at rest or while the poller is busy with the previous one; a stale caller keeps invoking Release/Close/Next/Write/Flush/Len/Skip on connections that are already closed, at seeded steps, including between the fetch and the dispatch of a poller batch; after every generation the slot ownership is audited in-package; c10_batch: one poller, 1-3 bystander connections and connection A get input at the same instant (A's peer may close too), A is closed by its user (optionally as soon as epoll_wait has handed out an event for A) and a new connection B is opened (optionally as soon as A's slot is back on the poller's free chain): the bystanders and B must stay active and receive exactly their own bytes; non-trivial = every run; distinct = distinct step-trace hash",
 		Assume: []string{"one reader per connection; stale calls come from one extra goroutine", "a peer-closed connection without callbacks is closed by the user (documented)"},
 		Real:   commonReal, Stub: commonStub})
 	addPlan(&propertyPlan{ID: "C11",
-		Scenarios: []scenarioPlan{{Name: "c11_poller", Quick: 15000, Thorough: 700000}, {Name: "c18_pool", Quick: 3000, Thorough: 100000}},
-		Rule: "one run = the real defaultPoll loop with 1-140 harness-owned FDOperators over socket pairs (140 makes the batch cross the 128-event growth threshold); up to 8 peers write 0-3000 bytes in seeded chunkings and then stay, close, half-close or close with unread data; a third of the descriptors also have output to send through the poller; optional Detach(+Free), Trigger and finally Close from other tasks; kernel short reads/writes, EAGAIN, epoll EINTR and batch clipping; the flag combinations are those the real kernel produces for AF_UNIX; non-trivial = every run; distinct = distinct step-trace hash",
+		Scenarios: []scenarioPlan{{Name: "c11_poller", Quick: 15000, Thorough: 700000}, {Name: "c11_trigger", Quick: 20000, Thorough: 1000000}, {Name: "c18_pool", Quick: 3000, Thorough: 100000}},
+		Rule: "one run = the real defaultPoll loop with 1-140 harness-owned FDOperators over socket pairs (140 makes the batch cross the 128-event growth threshold); up to 8 peers write 0-3000 bytes in seeded chunkings and then stay, close, half-close or close with unread data; a third of the descriptors also have output to send through the poller; optional Detach(+Free), Trigger and finally Close from other tasks; kernel short reads/writes, EAGAIN, epoll EINTR and batch clipping; the flag combinations are those the real kernel produces for AF_UNIX; c11_trigger: 1-4 tasks call Trigger 1-3 times each at seeded instants (also while the loop handles an earlier wake-up or socket input), then, with the loop blocked, two further Triggers must each be written to the wake-up descriptor and consumed by the loop; non-trivial = every run; distinct = distinct step-trace hash",
 		Assume: []string{"detaching a descriptor means deregistering it and handing its slot back (what connection does); TCP-only flag combinations are not produced", "poll_default_bsd.go cannot be built on this platform and is outside the check"},
 		Real:   commonReal, Stub: commonStub})
 
